@@ -163,3 +163,20 @@ pub fn spread_verdict(offer: u128, gross: u128, spread: u128, max_spread: Option
         }
     }
 }
+
+/// rounding dust for invariant comparisons in (heavily) imbalanced pools: a few base units of any
+/// asset valued at the curve's local slope, i.e. 4 + 4 * max_i (D(x + 1 base unit of i) - D(x)),
+/// in normalised units
+pub fn slope_dust_norm(amp: u64, raw: &[u128], decimals: &[u8]) -> U1024 {
+    let d = stable_d_norm(amp, raw, decimals);
+    let mut m = pow10(NORM_DEC - *decimals.iter().min().unwrap() as u32);
+    for i in 0..raw.len() {
+        let mut r2 = raw.to_vec();
+        r2[i] += 1;
+        let s = stable_d_norm(amp, &r2, decimals).saturating_sub(d);
+        if s > m {
+            m = s;
+        }
+    }
+    b(4) * m + b(4) * pow10(NORM_DEC - *decimals.iter().min().unwrap() as u32)
+}
